@@ -366,6 +366,48 @@ func Run(c *vk.Ctx) {
 		}
 	}
 
+	// (d) alignment of the source: every residue of from modulo 64 (an emitter that pads or chooses its form by
+	// where the sequence falls in a cache line), a few near and far distances each
+	alignDone := map[string]bool{}
+	for _, e := range []string{EReturn, EDivert, EStub} {
+		for _, base := range space.Bases(thorough)[:3] {
+			for r := uint64(0); r < 64; r++ {
+				for _, dist := range []int64{-4096, -200, -7, 0, 1, 27, 100, 4096, 1 << 20, -(1 << 20), 1 << 33, -(1 << 33)} {
+					mine := c.Mine(idx)
+					idx++
+					if !mine {
+						continue
+					}
+					if c.Full() || c.Expired() {
+						break
+					}
+					from := base&^63 + r
+					to := from + 5 + uint64(dist)
+					c.Res.Evaluations++
+					c.Res.Traces++
+					c.Res.Transitions++
+					c.Res.States++
+					perSpace["align:"+e]++
+					v := eval(e, from, to)
+					if v.reached {
+						c.Res.Nontrivial++
+					}
+					if v.class == "" {
+						continue
+					}
+					nFail++
+					k := e + "/" + v.class
+					if alignDone[k] {
+						continue
+					}
+					alignDone[k] = true
+					c.Violate(fmt.Sprintf("amd64 %s from%%64=%d class=%s", e, r, v.class), fmt.Sprintf("%s (source at residue %d modulo 64, destination %s bytes behind the end of a 5-byte jump there)", v.desc, r, shex(dist)),
+						Case{"amd64", e, hex(from), hex(to)})
+				}
+			}
+		}
+	}
+
 	c.Res.Extra["n_failing_evaluations"] = nFail
 	c.Res.Extra["n_return_relative_form"] = nRelForm
 	c.Res.Extra["n_return_far_form"] = nFarForm
